@@ -129,6 +129,7 @@ class Cluster:
         self.err_codes = {}  # api name -> [codes] offered as per-request ERR faults
         self.fault_kinds = ("drop-before", "drop-after", "lose", "err")
         self.fault_apis = None  # None = all
+        self.faults_enabled = True  # scenarios switch faults off while a client bootstraps (start() failing is not a property violation)
         self.fetch_batch_limit = None  # max batches per partition per fetch response (None = all)
         self.heartbeat_in_completing = NONE
         self.sasl = None
@@ -868,6 +869,8 @@ class Cluster:
     # ---- fault alternatives ---------------------------------------------------------------------------------------
     def fault_alts(self, world, heads):
         out = []
+        if not self.faults_enabled:
+            return out
         kinds = self.fault_kinds
         for ev in heads:
             lab = f"{ev.conn.label}:{ev.info}"
